@@ -262,3 +262,102 @@ Theorem C11_layer_transport :
          forall i : nat, layer B eqB fs (List.map enc S0) i = List.map enc (layer A eqA gs S0 i).
 Proof. exact @layer_transport. Qed.
 Print Assumptions C11_layer_transport.
+
+From V Require Import Base Perm Graph GraphProofs NumpyBfsProofs Bitmask BitmaskProofs BitmaskEngine BitmaskEngineTables BitmaskEngineProofs.
+
+(* BIT-MASK ENGINE, whole loop (chunks by suffix, black / last-layer / gray bit sets of ranks, materialise - apply generators - route to chunk - paint gray - flush, depth limit and both stopping rules): whenever the model returns sizes they are exactly the true layer sizes of the Cayley graph from the identity, truncated at the depth limit / first empty layer; generators need NOT be inverse-closed *)
+Theorem C11_bitmask_bfs_growth :
+  forall (n : nat) (gens : list (list nat)) (max_diameter : BinNums.N) (sizes : list nat),
+         bitmask_bfs n gens max_diameter = Ok sizes ->
+         sizes =
+         take_nonzero
+           (List.map
+              (fun i : nat =>
+               length (layer (list nat) st_eq_dec (fs gens) (identity_perm n :: nil) i))
+              (List.seq 0 (S (BinNat.N.to_nat max_diameter)))).
+Proof. exact @bitmask_bfs_growth. Qed.
+Print Assumptions C11_bitmask_bfs_growth.
+
+(* the same from any start permutation *)
+Theorem C11_bitmask_bfs_from_growth_takewhile :
+  forall (n : nat) (gens : list (list nat)) (start : list nat) (max_diameter : BinNums.N)
+           (sizes : list nat),
+         bitmask_bfs_from n gens start max_diameter = Ok sizes ->
+         sizes =
+         take_nonzero
+           (List.map (fun i : nat => length (layer (list nat) st_eq_dec (fs gens) (start :: nil) i))
+              (List.seq 0 (S (BinNat.N.to_nat max_diameter)))).
+Proof. exact @bitmask_bfs_from_growth_takewhile. Qed.
+Print Assumptions C11_bitmask_bfs_from_growth_takewhile.
+
+(* entry i counts the states at distance exactly i *)
+Theorem C11_bitmask_bfs_counts_distance_classes :
+  forall (n : nat) (gens : list (list nat)) (start : list nat) (max_diameter : BinNums.N)
+           (sizes : list nat) (k i : nat),
+         bitmask_bfs_from n gens start max_diameter = Ok sizes ->
+         growth_cut gens start (BinNat.N.to_nat max_diameter) k ->
+         length sizes = S k /\
+         (i <= k ->
+          exists cls : list (list nat),
+            List.NoDup cls /\
+            (forall x : list nat, List.In x cls <-> dist_is (list nat) (fs gens) (start :: nil) x i) /\
+            List.nth i sizes 0 = length cls).
+Proof. exact @bitmask_bfs_counts_distance_classes. Qed.
+Print Assumptions C11_bitmask_bfs_counts_distance_classes.
+
+(* every outcome: sizes (then they are right), AssertionError exactly on invalid input, IndexError only on valid input - never a KeyError *)
+Theorem C11_bitmask_bfs_from_outcomes :
+  forall (n : nat) (gens : list (list nat)) (start : list nat) (max_diameter : BinNums.N)
+           (k : nat),
+         growth_cut gens start (BinNat.N.to_nat max_diameter) k ->
+         match bitmask_bfs_from n gens start max_diameter with
+         | Ok sizes =>
+             valid_input n gens start /\
+             sizes =
+             List.map (fun i : nat => length (layer (list nat) st_eq_dec (fs gens) (start :: nil) i))
+               (List.seq 0 (S k))
+         | Err e =>
+             e = AssertionErr /\ ~ valid_input n gens start \/
+             e = IndexErr /\ valid_input n gens start
+         end.
+Proof. exact @bitmask_bfs_from_outcomes. Qed.
+Print Assumptions C11_bitmask_bfs_from_outcomes.
+
+(* the engine succeeds on every valid input in which two generators differ beyond position 8 (the documented domain: generators that move the trailing positions) *)
+Theorem C11_bitmask_bfs_from_total :
+  forall (n : nat) (gens : list (list nat)) (start : list nat),
+         valid_input n gens start ->
+         forall max_diameter : BinNums.N,
+         spread gens ->
+         exists sizes : list nat, bitmask_bfs_from n gens start max_diameter = Ok sizes.
+Proof. exact @bitmask_bfs_from_total. Qed.
+Print Assumptions C11_bitmask_bfs_from_total.
+
+(* and raises IndexError when all generators agree there (the np.roll grouping finds no group start) *)
+Theorem C11_bitmask_bfs_from_index_error :
+  forall (n : nat) (gens : list (list nat)) (start : list nat),
+         valid_input n gens start ->
+         forall max_diameter : BinNums.N,
+         length gens <> 1 ->
+         (forall g g' : list nat,
+          List.In g gens -> List.In g' gens -> List.skipn RR g = List.skipn RR g') ->
+         BinNat.N.le (BinNums.Npos BinNums.xH) max_diameter ->
+         bitmask_bfs_from n gens start max_diameter = Err IndexErr.
+Proof. exact @bitmask_bfs_from_index_error. Qed.
+Print Assumptions C11_bitmask_bfs_from_index_error.
+
+(* the loop invariant: after t steps, chunk by chunk, last = layer t, black = layers 0..t, gray empty *)
+Theorem C11_step_inv :
+  forall (n : nat) (gens : list (list nat)) (start : list nat),
+         8 <= n ->
+         (forall g : list nat, List.In g gens -> PermN n g) ->
+         PermN n start ->
+         forall (t : nat) (cs : list chunk),
+         Inv n gens start t cs ->
+         paint_phase gens cs =
+         (if List.existsb (fun c1 : chunk => (c_changed c1 && bad_call (neighbors gens c1))%bool) cs
+          then Err IndexErr
+          else Ok (List.map (paint_all (all_nbrs gens cs)) cs, List.existsb c_changed cs)) /\
+         Inv n gens start (S t) (flush (List.map (paint_all (all_nbrs gens cs)) cs)).
+Proof. exact @step_inv. Qed.
+Print Assumptions C11_step_inv.
